@@ -338,7 +338,9 @@ func (r *FnRun) callContract(st *State, fr *frame, instr ssa.Instruction, f *ssa
 			continue
 		}
 		r.oblige(st, "pre", callee+"."+lbl(c, fmt.Sprintf("requires@%d", c.Line)), c.Tags, t, r.posOf(instr), anchor)
-		st.assume(t)
+		if !isDiscipline(c.E) {
+			st.assume(t)
+		}
 	}
 	r.applyAssigns(st, fc)
 	res := r.symResults(st, f.Signature, callee)
@@ -590,6 +592,17 @@ func (r *FnRun) cbfreeCheck(st *State, fr *frame, instr ssa.Instruction, what st
 	}
 }
 
+func (r *FnRun) typeByName(pkgPath, tname string) types.Type {
+	for _, p := range r.eng.loadedPkgs {
+		if p.Pkg.Path() == pkgPath {
+			if o := p.Pkg.Scope().Lookup(tname); o != nil {
+				return o.Type()
+			}
+		}
+	}
+	return nil
+}
+
 func (r *FnRun) tnByName(pkgPath, tname string) string {
 	if r.fn.Pkg.Pkg.Path() == pkgPath {
 		return tname
@@ -649,7 +662,9 @@ func (r *FnRun) invoke(st *State, fr *frame, instr ssa.Instruction, c *ssa.CallC
 				continue
 			}
 			r.oblige(st, "pre", key+"."+lbl(cl, fmt.Sprintf("requires@%d", cl.Line)), cl.Tags, t, r.posOf(instr), "call "+key)
-			st.assume(t)
+			if !isDiscipline(cl.E) {
+				st.assume(t)
+			}
 		}
 		r.applyAssigns(st, fc)
 	} else {
@@ -737,10 +752,13 @@ func (r *FnRun) callUnknown(st *State, fr *frame, instr ssa.Instruction, c *ssa.
 		k(st, resultV(st, sig, res))
 		return
 	}
-	if fc == nil || !fc.Trusted {
+	internal := fc != nil && fc.ClosedWorld
+	if !internal {
 		r.cbfreeCheck(st, fr, instr, "call func "+key)
+		r.userCalls["func "+key] = true
+	} else {
+		r.closedWorld[key] = true
 	}
-	r.userCalls["func "+key] = true
 	pre := st.clone()
 	vars := bindNames(fc, nil, sig, false, args)
 	if fc != nil {
@@ -760,9 +778,11 @@ func (r *FnRun) callUnknown(st *State, fr *frame, instr ssa.Instruction, c *ssa.
 	} else {
 		st.bumpAlloc()
 	}
-	st.ctxDoneAdvance()
 	res := r.symResults(st, sig, key)
-	st.emit("callfn:"+key, callEventArgs(fnv, args, res)...)
+	if !internal {
+		st.ctxDoneAdvance()
+		st.emit("callfn:"+key, callEventArgs(fnv, args, res)...)
+	}
 	if fc != nil {
 		bindResults(vars, fc, sig, res)
 		for _, cl := range fc.Clauses {
@@ -1136,4 +1156,10 @@ func (r *FnRun) execSelect(st *State, fr *frame, b *ssa.BasicBlock, i int, x *ss
 			r.blockingNoDone = append(r.blockingNoDone, r.posOf(x))
 		}
 	}
+}
+
+// isDiscipline: a precondition that only states lock/callback discipline is asserted at the call site but not
+// assumed afterwards, so that a (known) discipline violation does not make the rest of the path vacuous.
+func isDiscipline(e *Expr) bool {
+	return e != nil && e.Op == "call" && e.Name == "cbfree"
 }
